@@ -19,10 +19,42 @@ SPECS = [
 LABEL = {"plain": "blackbox", "serial": "whitebox"}
 
 
-def _run(ctx, res, seeds, tier=None):
+def _run_huge(exes, sd):
+    """thorough tier only: requests of 2^27 … 2^33+100 bytes (VERIF_SALSA_PART=huge), once per build, the two builds side by side; about 8.2 + 4.1 GiB of memory"""
+    r = cl.StreamResult()
+    cl.run_streams_parallel(r, [dict(label="salsa/%s/huge/seed%s" % (LABEL[b], sd), exe=exe, timeout=3000,
+                                     env={"VERIF_SEED": str(sd), "VERIF_TIER": "thorough", "VERIF_SALSA_PART": "huge"},
+                                     trivial=lambda lhs: lhs.split(" ", 1)[0] in ("vector", "jobend"))
+                                for (name, b), exe in sorted(exes.items())], workers=2)
+    return r
+
+
+def _run(ctx, res, seeds, tier=None, huge=False):
+    import threading
     exes, errs = cl.build_harnesses(SPECS)
     for k, e in errs.items():
         ctx["problems"].append({"kind": "harness-build", "what": "salsa harness (%s) does not compile" % LABEL[k[1]], "detail": e})
+    hres = []
+    ht = None
+    if huge and exes:
+        # runs beside the ordinary streams (which are single-threaded pipelines harness -> driver)
+        ht = threading.Thread(target=lambda: hres.append(_run_huge(exes, seeds[0])))
+        ht.start()
+    try:
+        _run_std(ctx, res, exes, seeds, tier)
+    finally:
+        if ht:
+            ht.join()
+            cl.merge_results(res, hres)
+    # every big request must have come with its windows (the Lean side of the check of a big request)
+    nbig = sum(v for k, v in res.classes.items() if k.split(":", 1)[0] in ("frbbig", "salsa20asmbig"))
+    nwin = sum(v for k, v in res.classes.items() if k.split(":", 1)[0] in ("frbwin", "salsa20asmwin"))
+    if nwin < 20 * nbig:
+        ctx["problems"].append({"kind": "stream", "what": "big requests without their windows: %d verdict lines, %d window lines" % (nbig, nwin)})
+    return {"builds": sorted(LABEL[b] for (_, b) in exes), "big_requests": nbig, "windows_checked_in_lean": nwin}
+
+
+def _run_std(ctx, res, exes, seeds, tier):
     for sd in seeds:
         for (name, b), exe in sorted(exes.items()):
             env = {"VERIF_SEED": str(sd)}
@@ -31,7 +63,6 @@ def _run(ctx, res, seeds, tier=None):
             # every history runs in a forked child: a dead child is reported by the harness itself as a `…fault` line
             cl.run_stream(res, "salsa/%s/seed%s" % (LABEL[b], sd), exe, env=env,
                           trivial=lambda lhs: lhs.split(" ", 1)[0] in ("vector", "jobend"))
-    return {"builds": sorted(LABEL[b] for (_, b) in exes)}
 
 
 def _interleave(fails):
@@ -41,7 +72,8 @@ def _interleave(fails):
     for f in fails:
         groups.setdefault((f["stream"].split("/")[1], f["line"].split(" ", 1)[0]), []).append(f)
     out = []
-    qs = [groups[k] for k in sorted(groups, key=lambda k: (k[1] != "frb", k))]
+    order = {"frbbig": 0, "frb": 1, "salsa20asmbig": 2}   # verdict lines (whole request) before windows of the same request
+    qs = [groups[k] for k in sorted(groups, key=lambda k: (order.get(k[1], 3), k))]
     while any(qs):
         for q in qs:
             if q:
@@ -52,7 +84,7 @@ def _interleave(fails):
 def streams(ctx, res):
     sd = ctx["seed"]
     seeds = [sd, sd + 100] if ctx["tier"] == "quick" else [sd, sd + 100, sd + 200, sd + 300]
-    cov = _run(ctx, res, seeds)
+    cov = _run(ctx, res, seeds, huge=(ctx["tier"] != "quick"))
     res.specfail[:] = _interleave(res.specfail)
     return cov
 
@@ -68,7 +100,19 @@ PROP = {
     "rule": "every request history runs in its own process (forked child; generator state is process-global) with nfl::randombytes "
             "replaced by a seeded key; per request: <index, length, placement, key, run-length history> => seed calls so far, red zone "
             "intact, portable C agrees, output bytes (full up to 1 KiB, beyond that digests of every 256-byte chunk + first/last 64 bytes); "
-            "lengths 0,1,63,64,65,255,256,257, 2^20+1, all multiples of 64 up to 1024 ±1, random; buffer flush to a trailing PROT_NONE page, "
+            "lengths 0,1,63,64,65,255,256,257, 2^20+1, all multiples of 64 up to 1024 ±1, random; "
+            "LENGTHS WITH A NON-ZERO HIGH PART AND SMALL LOW BITS (64-bit length arithmetic of the assembly): k*2^16 + {0,1,63,64,100,255,256,257} "
+            "(whole output through Lean), and as BIG requests 2^24 + {0,1,63,64,100,255,256,257,4500}, 2^26 + small (every run), "
+            "2^27+100, 2^28+255, 2^30+64, 2^31-1, 2^31, 2^31+100, 2^31+256, 2^32-1, 2^32 + {0,1,63,64,100,255,256,257,4500}, 2^32+2^16+100, 2^33+100 "
+            "(thorough tier, VERIF_SALSA_PART=huge, black box from request 0, white box at request numbers 2^32-1, 2^64-2 and one with all bytes non-zero, "
+            "and direct calls of the assembly with random / all-bytes-non-zero / low-word-zero nonces).  A big request is not re-generated in Lean: "
+            "`frbbig`/`salsa20asmbig` <request> => <seed calls> <red zone intact> <number of bytes that differ from the portable C Salsa20 over the WHOLE buffer> "
+            "<first differing offset | -1> (specification: 0 and -1; the buffer is pre-filled with non-zero bytes), and `frbwin`/`salsa20asmwin` <off> <wlen> <kind> <request> => "
+            "the bytes [off, off+wlen) of the buffer, which the driver compares with Spec.Salsa20.window = the blocks off/64… computed by random access "
+            "(theorem stream_window: that IS the slice of stream key nonce len); windows: first 384 and last 256 bytes, around every multiple of 2^32, 2^31, 2^24, "
+            "around the first/last four and 32 random multiples of 2^16, around the last 256-byte and 64-byte boundary, around len mod 2^k for k = 32, 31, 24, 16 "
+            "(where a length truncated to k bits would stop), one at a random place in every 64 MiB, 64 random.  A block counter >= 2^32 (a single request of "
+            ">= 256 GiB) is out of reach of this check and is NOT exercised; buffer flush to a trailing PROT_NONE page, "
             "flush to a leading PROT_NONE page, and at every alignment 0..63 between red zones; carries of the nonce into bytes 1 and 2 reached "
             "natively (65 538 requests), into bytes 3..7 and the 2^64 wrap by presetting the static nonce (white-box build, statics read back "
             "after each request); white-box product {request number classes 0, 2^8-1.., 2^16±1, 2^24±1, 2^32-2..2^32+2, 2^40, 2^48, 2^56, 2^63, 2^64-2, 2^64-1, "
@@ -78,7 +122,8 @@ PROP = {
             "one byte (8 positions), nonce = all bytes equal except one, the nonce classes above, key = 0 except one byte of each word (all 32 positions at length 703); portable C core/quarterround on the examples of the "
             "Salsa20 specification (incl. Salsa20^1000000) and random inputs against the Lean specification; distinct = distinct op lines",
     "trusted_base": props.COMMON_TB + [
-        "nfl_crypto_stream_salsa20_amd64_xmm6.s (4823 lines of assembly) is NOT modelled: its equality with the Lean Salsa20/20 stream and the absence of writes outside the buffer are observed on the generated requests only (guard pages, red zones, byte-for-byte comparison); block counters ≥ 2^32 (requests ≥ 256 GiB) are never exercised",
+        "nfl_crypto_stream_salsa20_amd64_xmm6.s (4823 lines of assembly) is NOT modelled: its equality with the Lean Salsa20/20 stream and the absence of writes outside the buffer are observed on the generated requests only (guard pages, red zones, byte-for-byte comparison); request lengths go up to 2^33+100 bytes (block counter < 2^27+2); block counters ≥ 2^32 (a single request ≥ 256 GiB) are never exercised",
+        "requests longer than 2^21 bytes are compared over their whole length with the portable C Salsa20 only (4-lane form, self-tested against the flat form incl. counters around 2^32); the Lean specification sees sampled windows of them (about 450 windows of 128 bytes per request)",
         "my transcription of the examples of the Salsa20 specification (they agree with Lean, portable C and the assembly)",
         "that distinct Salsa20 core inputs give unrelated outputs is the PRF assumption on Salsa20/20 — not claimed",
         "the model is sequential (one request at a time); concurrent callers are the subject of the concurrency properties",
